@@ -121,11 +121,89 @@ func ruleR14c(c *Check, rule string) {
 	fname := c.P.FuncName(fn)
 	wts := callsNamed(fn, "context.WithTimeout", "context.WithDeadline")
 	runs := callsToFn(c, fn, ex.RunCommand)
-	if len(wts) == 0 || len(runs) == 0 {
+	if len(wts) == 0 && len(runs) > 0 && timeoutThroughHelper(c, rule, fn, fname, runs) {
+		wts = nil
+	} else if len(wts) == 0 || len(runs) == 0 {
 		c.Bad(rule, "timeout-applied/"+fname, "no context.WithTimeout (or no command call) in the command executor", c.P.Pos(fn.Pos()))
 		return
 	}
-	wt := wts[0]
+	if len(wts) > 0 {
+		r14cDirect(c, rule, fn, fname, wts[0], runs)
+	}
+	r14cRunner(c, rule, ex)
+}
+
+// timeoutThroughHelper: the command's context comes from a helper `derive(ctx, timeout)` that returns
+// context.WithTimeout(ctx, timeout) whenever timeout > 0; the executor hands it Target.Timeout and runs the
+// command on what it returns.
+func timeoutThroughHelper(c *Check, rule string, fn *ssa.Function, fname string, runs []ssa.CallInstruction) bool {
+	for _, s := range engine.SitesIn(fn) {
+		call, ok := s.(*ssa.Call)
+		if !ok {
+			continue
+		}
+		h := call.Call.StaticCallee()
+		if h == nil || len(h.Blocks) == 0 || !engine.IsFirstParty(pkgPathOf(h)) {
+			continue
+		}
+		hw := callsNamed(h, "context.WithTimeout", "context.WithDeadline")
+		if len(hw) != 1 || h.Signature.Results().Len() == 0 || h.Signature.Results().At(0).Type().String() != "context.Context" {
+			continue
+		}
+		wt := hw[0]
+		// the duration is a parameter of the helper, and the executor passes Target.Timeout for it
+		pj := -1
+		for _, o := range engine.Origins(wt.Common().Args[1]) {
+			for j, p := range h.Params {
+				if o == ssa.Value(p) {
+					pj = j
+				}
+			}
+		}
+		if pj < 0 || pj >= len(call.Call.Args) {
+			continue
+		}
+		_, fromField := fieldReadOn(call.Call.Args[pj], "Timeout")
+		c.Require(fromField, rule, "timeout-duration/"+fname, "the deadline duration is Target.Timeout", "the context deadline is not Target.Timeout", c.P.InstrPos(call))
+		// in the helper: with a positive duration every return yields the WithTimeout context
+		bypass := false
+		for _, r := range engine.Returns(h) {
+			fromWT := false
+			for _, o := range engine.Origins(r.Results[0]) {
+				if cl, idx := engine.CallOf(o); cl == wt && idx == 0 {
+					fromWT = true
+				}
+			}
+			if fromWT {
+				continue
+			}
+			if reach, _ := engine.PathExists(h, nil, engine.IsInstr(r), engine.PathQuery{Shallow: true, CutEdge: engine.CutEdgesWhere(func(a engine.Atom) bool {
+				if a.V != ssa.Value(h.Params[pj]) {
+					return false
+				}
+				k, ok := a.Other.(*ssa.Const)
+				return ok && k.Value != nil && k.Int64() == 0 && (a.Op == "le" || a.Op == "eq")
+			})}); reach {
+				bypass = true
+			}
+		}
+		for _, r := range runs {
+			fromHelper := false
+			for _, o := range engine.Origins(r.Common().Args[0]) {
+				if cl, idx := engine.CallOf(o); cl == ssa.CallInstruction(call) && idx == 0 {
+					fromHelper = true
+				}
+			}
+			skip, _ := engine.PathExists(fn, nil, engine.IsInstr(r), engine.PathQuery{CutInstr: engine.IsInstr(call), Shallow: true})
+			c.Require(fromHelper && !skip && !bypass, rule, "timeout-applied/"+fname, "the command runs on the context a helper derives with WithTimeout whenever the timeout is positive",
+				fmt.Sprintf("the command does not run under the target's timeout (context from the deriving helper: %v; helper bypassed: %v; helper returns a context without deadline for a positive timeout: %v)", fromHelper, skip, bypass), c.P.InstrPos(r))
+		}
+		return true
+	}
+	return false
+}
+
+func r14cDirect(c *Check, rule string, fn *ssa.Function, fname string, wt ssa.CallInstruction, runs []ssa.CallInstruction) {
 	_, fromField := fieldReadOn(wt.Common().Args[1], "Timeout")
 	c.Require(fromField, rule, "timeout-duration/"+fname, "the deadline duration is Target.Timeout", "the context deadline is not Target.Timeout", c.P.InstrPos(wt))
 	for _, r := range runs {
@@ -151,6 +229,9 @@ func ruleR14c(c *Check, rule string) {
 		c.Require(fromWT && !skip, rule, "timeout-applied/"+fname, "the command runs on the WithTimeout context whenever Target.Timeout > 0",
 			fmt.Sprintf("the command does not run under the target's timeout (context from WithTimeout: %v; timeout branch can be bypassed: %v)", fromWT, skip), c.P.InstrPos(r))
 	}
+}
+
+func r14cRunner(c *Check, rule string, ex *execAnchors) {
 	// runner: CommandContext on the ctx parameter, WaitDelay > 0
 	rn := ex.RunCommand
 	var ctxParam ssa.Value
